@@ -356,9 +356,14 @@ DOC = {
     ("qha", "settings", "NT"): dict(type="integer", minimum=1),
     ("qha", "settings", "NTV"): dict(type="integer", minimum=1),
     ("qha", "settings", "T_MIN"): dict(type="number", minimum=0),
-    ("qha", "settings", "DT"): dict(type="number"),
+    # "the interval between two nearest temperatures / pressures on the grid": a step, hence positive
+    ("qha", "settings", "DT"): dict(type="number", exclusiveMinimum=0),
     ("qha", "settings", "P_MIN"): dict(type="number"),
-    ("qha", "settings", "DELTA_P"): dict(type="number"),
+    ("qha", "settings", "DELTA_P"): dict(type="number", exclusiveMinimum=0),
+    ("qha", "settings", "DELTA_P_SAMPLE"): dict(type="number", exclusiveMinimum=0),
+    # listed in the packaged default settings and in the README next to the others
+    ("qha", "settings", "DT_SAMPLE"): dict(type="number", exclusiveMinimum=0),
+    ("qha", "settings", "static_only"): dict(type="boolean"),
     ("qha", "settings", "volume_ratio"): dict(type="number", minimum=1),
     ("qha", "settings", "order"): dict(type="number", minimum=2),
     ("elast", "settings", "mode_gamma", "interpolator"): dict(type="string", enum=["spline", "lsq_poly", "lagrange", "krogh", "pchip", "hermite", "akima"]),
